@@ -3,9 +3,12 @@ PROP = {'rule': 'rapid-generated cases. A case = one webhook-mutated pod (1-5 re
          '{missing, 0, 1..12, 999, 1000, 1001, 1500, 1..64000, around 256000 (cpu.shares maximum), up to 2^40}, batch-memory '
          'request/limit in {missing, 0, 1, 4Ki, .. 2^50}; request <= limit; pod shapes free / all-limited / tiny (sub-minimum quotas) / '
          'one-unlimited; the extended-resource-spec annotation exactly as the mutating webhook writes it) with a QoS marking (label BE / '
-         'label LS,LSR,LSE,SYSTEM / no label, optionally BE written in an annotation or batch priority class) and a rule configuration '
-         '(CFS quota unset / set directly / derived from a NodeSLO suppress strategy; normalization ratio unset / set directly in '
-         '{-1, 0.5, 1, 1.0001, 1.5, 3, [1,10]} / parsed from the node annotation incl. missing and illegal values). Every case is driven '
+         'label LS,LSR,LSE,SYSTEM / no label, optionally BE written in an annotation or batch priority class) and a sequence of 0-4 rule '
+         'updates applied in drawn order before the hooks run (parseRuleForNodeMeta with a node whose ratio annotation is missing / illegal / '
+         'a valid number with 0, 2 or 4 decimals, often within +-0.02 of the previous one; parseRuleForNodeSLO with a suppress strategy; a '
+         'minority of direct UpdateCFSQuotaEnabled / UpdateCPUNormalizationRatio calls with arbitrary floats); the oracle uses the '
+         'configuration effective after the sequence, from a reference model of the rule (first ratio always stored, later one stored iff '
+         '|stored-new| >= 0.01, missing annotation = -1 is a regular update, illegal annotation keeps the stored ratio, last CFS switch wins). Every case is driven '
          'through the plugin three ways: runtime-proxy requests (FromProxy), NRI requests (FromNri), reconciler PodMeta (FromReconciler; '
          'per-cgroup-file entry points or the aggregated ones). non-trivial = pod treated as BE AND >= 2 containers handed to the '
          'pod-level hook AND (a container whose quota is below the 1000 us minimum with CFS quota enabled OR a container without cpu or '
@@ -21,7 +24,8 @@ PROP = {'rule': 'rapid-generated cases. A case = one webhook-mutated pod (1-5 re
                  'cpu amounts are capped at 2^40 milli-cores per container so that milli*100000 cannot overflow int64 (not a real node size)',
                  'ratio scaling: ceil(quota/ratio) is computed in float64 by the code; accepted interval x(1-2^-50) <= got <= x(1+2^-50)+1 '
                  'with x = quota/ratio in exact rational arithmetic; a scaled value below 1000 us may also be re-clamped to 1000',
-                 'one rule configuration per case on a fresh plugin (sequences of ratio updates closer than ratioDiffEpsilon are not explored)'],
+                 'ratioDiffEpsilon hysteresis is modelled as documented (an update closer than 0.01 to the stored ratio keeps the stored one); the '
+                 'code decides the boundary in float64, so an update within 1e-9 of exactly 0.01 away is accepted both as taken and as ignored'],
  'units': [{'name': 'batchresource',
             'pkg': 'pkg/koordlet/runtimehooks/hooks/batchresource',
             'files': ['C14/c14_batchresource_test.go'],
